@@ -538,12 +538,14 @@ impl<'a> Repr<'a> {
                 opt.set_option_type(Type::SourceLinkLayerAddr);
                 let opt_len = addr.len() + 2;
                 opt.set_data_len(opt_len.div_ceil(8) as u8); // round to next multiple of 8.
+                opt.data_mut().fill(0); // zero the padding
                 opt.set_link_layer_addr(addr);
             }
             Repr::TargetLinkLayerAddr(addr) => {
                 opt.set_option_type(Type::TargetLinkLayerAddr);
                 let opt_len = addr.len() + 2;
                 opt.set_data_len(opt_len.div_ceil(8) as u8); // round to next multiple of 8.
+                opt.data_mut().fill(0); // zero the padding
                 opt.set_link_layer_addr(addr);
             }
             Repr::PrefixInformation(PrefixInformation {
@@ -568,6 +570,7 @@ impl<'a> Repr<'a> {
                 opt.clear_redirected_reserved();
                 opt.set_option_type(Type::RedirectedHeader);
                 opt.set_data_len((8 + header.buffer_len() + data.len()).div_ceil(8) as u8);
+                opt.data_mut().fill(0); // zero the reserved field and the trailing padding
                 let mut packet = &mut opt.data_mut()[field::REDIRECTED_RESERVED.end - 2..];
                 let mut ip_packet = Ipv6Packet::new_unchecked(&mut packet);
                 header.emit(&mut ip_packet);
@@ -576,6 +579,7 @@ impl<'a> Repr<'a> {
             Repr::Mtu(mtu) => {
                 opt.set_option_type(Type::Mtu);
                 opt.set_data_len(1);
+                opt.data_mut().fill(0); // zero the reserved field
                 opt.set_mtu(mtu);
             }
             Repr::Unknown {
